@@ -220,9 +220,13 @@ CHECKS.update({
              "the broadcast masked bit XOR the mask shares the others sent it (= input XOR own share) must be balanced for input 0 "
              "and input 1 alike (5 sigma), no two (party, run) may share a global key (probe) and no two canary runs the same "
              "own-mask vector; 128 random canary input bits must not appear as the broadcast vector, its complement or a bit/byte "
-             "pattern in the party's traffic.",
+             "pattern in the party's traffic. Clause 'a share that it never discloses': ABit.tla models the aBit consistency test as "
+             "linear algebra over GF(2) (DisclosureIsExact, MaskedIfFullRank, LeakBound, soundness of the test) and Mon_ABit judges "
+             "every fabitn call of real honest runs: no XOR of the public coefficient vectors may avoid every discarded position "
+             "while touching a returned one (Gaussian elimination in TLA+; a found combination is confirmed on the broadcast bits "
+             "and the probed own bits). A recorded call of the pinned tree is replayed as negative control.",
         note="Possibilistic/first-order only: the monitor cannot decide uniformity; a subtly biased or correlated generator passes. "
-             "The global key is read through a probe hook.",
+             "The global key, the test coefficients and the own aBit bits are read through probe hooks.",
         technique="TLC trace monitor over a multi-run history of real executions (statistical counters evaluated in TLA+)"),
     "C07": dict(
         category="exploration", design_ref="DESIGN.md 4 C07, 5",
@@ -233,7 +237,8 @@ CHECKS.update({
              "thorough, one small configuration) and occurs at no byte offset of any message in either byte order.",
         note="Opaque byte strings (OT matrix, base-OT points, row ciphertexts) are scanned only as raw bytes for the key itself. A "
              "party that aborted on a protocol check is not judged (its key dies with the run). The symbolic secrecy model of "
-             "DESIGN 2.1 (Gf2/Wrk17) was not built; this is a transcript scan.",
+             "DESIGN 2.1 exists for the aShare round (AShare.tla) and the AND-triple preprocessing (Wrk17Pre.tla): KeySecrecy is "
+             "model-checked there and bound to the replays; the rest is a transcript scan.",
         technique="TLC trace monitor (XOR-closure scan of the decoded transcript against probed keys) over real honest and adversarial runs"),
 })
 
